@@ -1,0 +1,31 @@
+//go:build verif
+
+package table
+
+import "github.com/weedbox/pokerface/seat_manager"
+
+// VerifSetupPosition runs the position set-up of the next hand (what
+// prepareNextGame does first) without the table loop and its timers.
+// Verification hook (build tag verif), not part of the API.
+func VerifSetupPosition(t Table) error {
+
+	tt, ok := t.(*table)
+	if !ok {
+		return nil
+	}
+
+	tt.inPosition = false
+
+	return tt.setupPosition()
+}
+
+// VerifSeatManager gives read access to the table's seat manager.
+func VerifSeatManager(t Table) *seat_manager.SeatManager {
+
+	tt, ok := t.(*table)
+	if !ok {
+		return nil
+	}
+
+	return tt.sm
+}
